@@ -63,12 +63,51 @@ theorem mapM_elemHex_length {w : Nat} (hw : w = 2 ∨ w = 4) : ∀ (xs : List St
         · exact elemHex_length hw hy
         · exact ih ys hys z hz
 
+theorem elemHexP_length {w : Nat} (hw : w = 2 ∨ w = 4) {x h : Str} (he : elemHexP w x = .ok h) : h.length = w := by
+  unfold elemHexP at he
+  split at he
+  · rename_i h0 hh
+    cases he
+    exact elemHex_length hw hh
+  · split at he
+    · cases he; simp
+    · cases he
+
+theorem mapM_elemHexP_length {w : Nat} (hw : w = 2 ∨ w = 4) : ∀ (xs : List Str) (hs : List Str),
+    xs.mapM (elemHexP w) = .ok hs → hs.length = xs.length ∧ ∀ h ∈ hs, h.length = w := by
+  intro xs
+  induction xs with
+  | nil => intro hs h; simp [List.mapM_nil, pure, Except.pure] at h; subst h; simp
+  | cons x r ih =>
+    intro hs h
+    rw [List.mapM_cons] at h
+    simp only [bind, Except.bind, pure, Except.pure] at h
+    split at h
+    · cases h
+    · rename_i y hy
+      split at h
+      · cases h
+      · rename_i ys hys
+        cases h
+        refine ⟨by simp [(ih ys hys).1], ?_⟩
+        intro z hz
+        rcases List.mem_cons.mp hz with rfl | hz
+        · exact elemHexP_length hw hy
+        · exact (ih ys hys).2 z hz
+
 theorem multi_length {w : Nat} (hw : w = 2 ∨ w = 4) {s : Str} {hs : List Str} (h : multi w s = .ok hs) :
     ∀ x ∈ hs, x.length = w := by
   unfold multi at h
   split at h
   · cases h
-  · exact mapM_elemHex_length hw _ _ h
+  · exact (mapM_elemHexP_length hw _ _ h).2
+
+theorem multi_count {w : Nat} (hw : w = 2 ∨ w = 4) {s : Str} {hs : List Str} (h : multi w s = .ok hs) :
+    hs.length = (listElems s).length := by
+  unfold multi at h
+  split at h
+  · cases h
+  · exact (mapM_elemHexP_length hw _ _ h).1
 
 /-! ### the operand `createOperand` builds -/
 
@@ -192,6 +231,55 @@ theorem createOperand_shape0 {s : Str} {row : InstrRow} {o : Operand} (h : creat
                 split at h
                 · cases h; exact ⟨hpv, fun _ => hpl, by simp, by simp, by simp, by simp, by simp, by simp [Value.isLeftRight], by simp⟩
                 · cases h; exact ⟨hpv, fun _ => hpl, by simp, by simp, by simp, by simp, by simp, by simp [Value.isLeftRight], by simp⟩
+
+/-- (batch 8) a list value has as many items as the operand text has elements -/
+theorem createOperand_multi_count {s : Str} {row : InstrRow} {o : Operand} (h : createOperand s row = .ok o)
+    (hp : row.isPseudo = true) :
+    ∀ hs, (o.value = .multiByte hs ∨ o.value = .multiWord hs) →
+      hs.length = (listElems o.text).length ∧ (row.isMultiByte || row.isMultiWord) = true := by
+  unfold createOperand at h
+  rw [if_pos hp] at h
+  dsimp only at h
+  split at h
+  · cases h
+  · rename_i v hv0
+    have hcv : ∀ {b c : Bool}, createV s b c = .ok v →
+        ∀ hs, (v = .multiByte hs ∨ v = .multiWord hs) →
+          hs.length = (listElems s).length ∧ (row.isMultiByte || row.isMultiWord) = true := by
+      intro b c hcr hs hm
+      rcases create_created hcr with (h1 | h1 | h1 | h1) | ⟨x, rfl⟩
+      all_goals first
+        | (rcases hm with rfl | rfl <;> cases h1; done)
+        | (rcases hm with hm | hm <;> cases hm)
+    have hv : ∀ hs, (v = .multiByte hs ∨ v = .multiWord hs) →
+        hs.length = (listElems s).length ∧ (row.isMultiByte || row.isMultiWord) = true := by
+      split at hv0
+      · rename_i hmb
+        split at hv0
+        · obtain ⟨hs0, hm, rfl⟩ := map_ok hv0
+          intro hs hh
+          rcases hh with hh | hh <;> cases hh
+          exact ⟨multi_count (.inl rfl) hm, by rw [hmb]; rfl⟩
+        · exact hcv hv0
+      · split at hv0
+        · rename_i hmw
+          split at hv0
+          · obtain ⟨hs0, hm, rfl⟩ := map_ok hv0
+            intro hs hh
+            rcases hh with hh | hh <;> cases hh
+            exact ⟨multi_count (.inr rfl) hm, by rw [hmw]; simp⟩
+          · exact hcv hv0
+        · split at hv0
+          · cases hv0; intro hs hh; rcases hh with hh | hh <;> cases hh
+          · exact hcv hv0
+    repeat' split at h
+    all_goals first
+      | (cases h; done)
+      | (cases h; exact hv)
+      | (obtain ⟨a, ha, hf⟩ := map_ok h; subst hf
+         intro hs hh
+         have := numericOfInt_isNumeric ha
+         rcases hh with hh | hh <;> (dsimp only at hh; rw [hh] at this; cases this))
 
 /-! ### the operand `resolveOperand` leaves -/
 
@@ -395,5 +483,32 @@ theorem resolveOperand_shape1 {o o' : Operand} {row : InstrRow} {t : SymTab} (h0
              | (obtain ⟨a, ha, hf'⟩ := map_ok h; subst hf'
                 exact ⟨fun _ => .inl (numericOfInt_isNumeric ha), by simp, by simp, by simp, (hL1 _ rfl).1,
                   (hL1 _ rfl).2, by simp⟩))
+
+/-- (batch 8) `resolve_symbols` leaves an FCB / FDB list operand as it is -/
+theorem resolveOperand_multi_keep {o o' : Operand} {row : InstrRow} {t : SymTab}
+    (h : resolveOperand o row t = .ok o') (hk : o.kind = .pseudo)
+    (hm : o'.value.isMultiByte = true ∨ o'.value.isMultiWord = true) : o' = o := by
+  unfold resolveOperand at h
+  simp only [hk] at h
+  split at h
+  · split at h
+    · cases h
+    · split at h
+      · rename_i hse
+        obtain ⟨a, ha, hf⟩ := map_ok h
+        subst hf
+        have hpl : Plain o.value := by
+          simp only [Bool.or_eq_true] at hse
+          rcases hse with hse | hse
+          · exact .inr (.inl hse)
+          · exact .inr (.inr hse)
+        have hf := resolve_plain hpl ha
+        exfalso
+        dsimp only at hm
+        cases a <;> first
+          | (rcases hf with hf | hf | hf <;> cases hf; done)
+          | (rcases hm with hm | hm <;> cases hm)
+      · cases h; rfl
+  · cases h; rfl
 
 end CoCo.Asm
